@@ -9,6 +9,7 @@ mod r_c01;
 mod r_c03;
 mod r_c04;
 mod r_c05;
+mod r_c12;
 mod r_c14;
 mod r_c16;
 mod r_c17;
@@ -29,10 +30,11 @@ fn esc(s: &str) -> String {
 fn run<S: shared::src_trait::Src>(harness: &str, src: &mut S) -> Outcome {
     match harness {
         h if h.starts_with("c02_cut") => r_c01::two_chunks(h[7..].parse().unwrap_or(0), src),
-        h if h.starts_with("c01_") || h.starts_with("c03_split") => r_c01::instance(h, src),
+        h if h.starts_with("c01_") || h.starts_with("c06_") || h.starts_with("c03_split") => r_c01::instance(h, src),
         h if h.starts_with("c03_") => r_c03::run(h, src),
         "c04_reply_paths" => r_c04::reply_paths(src),
         "c05_gate" => r_c05::gate(src),
+        "c12_error_position" => r_c12::error_position(src),
         "c14_execute_step" => r_c14::execute_step(src),
         h if h.starts_with("c16_activation") => r_c16::activation(src),
         "c16_scheme" => r_c16::scheme(src),
